@@ -26,7 +26,7 @@ PROPS = {
         "sub": "sim",
         "search_n": {"quick": 30000, "thorough": 300000},
         "shards": {"quick": 1, "thorough": 12},
-        "n": {"quick": 1500, "thorough": 120000},
+        "n": {"quick": 1500, "thorough": 360000},
         "coq_sample": {"quick": 6, "thorough": 40},
         "rule": SIM_RULE % "The monitor requires, with no machines: the multiset of client TunnelSent times equals the trace's send times, client TunnelRecv times equal its receive times, the server side is the mirror image shifted by the delay, no other kind of event, sim() agrees with sim_advanced(), and truncated runs are sub-multisets.",
         "trusted_extra": ['modelled rather than verified (simulator): lib.rs (sim_advanced, pick_next, do_scheduled_action, do_internal_timer, trigger_update, parse_trace), queue.rs, queue_event.rs, queue_peek.rs, network.rs, delay.rs WITHOUT integration delays; std BinaryHeap is modelled exactly (sift_up / sift_down_to_bottom); Instants are unbounded integers (ns), so overflow panics of Instant arithmetic are outside the model', 'the monitors of the simulator properties recover the actions by replaying the returned trace through fresh frameworks seeded as SimState::new does (Xoshiro256StarStar::seed_from_u64(seed), seed+1 for the server)'],
@@ -36,7 +36,7 @@ PROPS = {
         "sub": "sim",
         "search_n": {"quick": 30000, "thorough": 300000},
         "shards": {"quick": 1, "thorough": 12},
-        "n": {"quick": 1500, "thorough": 120000},
+        "n": {"quick": 1500, "thorough": 360000},
         "coq_sample": {"quick": 6, "thorough": 40},
         "rule": SIM_RULE % 'The monitor requires: trace ordered by time; every TunnelRecv matched (greedily, earliest unmatched) to an earlier TunnelSent of the other side and same kind at least one delay before; no side sends or receives more normal packets than its share, exactly its share when the run ended with all normal packets processed.',
         "trusted_extra": ['modelled rather than verified (simulator): lib.rs (sim_advanced, pick_next, do_scheduled_action, do_internal_timer, trigger_update, parse_trace), queue.rs, queue_event.rs, queue_peek.rs, network.rs, delay.rs WITHOUT integration delays; std BinaryHeap is modelled exactly (sift_up / sift_down_to_bottom); Instants are unbounded integers (ns), so overflow panics of Instant arithmetic are outside the model', 'the monitors of the simulator properties recover the actions by replaying the returned trace through fresh frameworks seeded as SimState::new does (Xoshiro256StarStar::seed_from_u64(seed), seed+1 for the server)'],
@@ -46,7 +46,7 @@ PROPS = {
         "sub": "sim",
         "search_n": {"quick": 30000, "thorough": 300000},
         "shards": {"quick": 1, "thorough": 12},
-        "n": {"quick": 1500, "thorough": 120000},
+        "n": {"quick": 1500, "thorough": 360000},
         "coq_sample": {"quick": 6, "thorough": 40},
         "rule": SIM_RULE % 'The monitor replays the trace through fresh frameworks to recover the BlockOutgoing/SendPadding actions and requires: BlockingEnd exactly once at the expiry computed by the start / replace / longest-of rule, no TunnelSent of a blocked side before the expiry unless the blocking is bypassable (every extending action allowed bypass) and the packet carries the bypass flag. Zero-duration blocks are the known finding F8.',
         "trusted_extra": ['modelled rather than verified (simulator): lib.rs (sim_advanced, pick_next, do_scheduled_action, do_internal_timer, trigger_update, parse_trace), queue.rs, queue_event.rs, queue_peek.rs, network.rs, delay.rs WITHOUT integration delays; std BinaryHeap is modelled exactly (sift_up / sift_down_to_bottom); Instants are unbounded integers (ns), so overflow panics of Instant arithmetic are outside the model', 'the monitors of the simulator properties recover the actions by replaying the returned trace through fresh frameworks seeded as SimState::new does (Xoshiro256StarStar::seed_from_u64(seed), seed+1 for the server)'],
@@ -56,7 +56,7 @@ PROPS = {
         "sub": "sim",
         "search_n": {"quick": 30000, "thorough": 300000},
         "shards": {"quick": 1, "thorough": 12},
-        "n": {"quick": 1500, "thorough": 120000},
+        "n": {"quick": 1500, "thorough": 360000},
         "coq_sample": {"quick": 6, "thorough": 40},
         "rule": SIM_RULE % "The monitor replays the trace through fresh frameworks and requires: every PaddingSent/BlockingBegin is the completion of the machine's pending action, exactly at issue time + timeout, with the action's flags, once; superseded or cancelled actions never fire; no pending action is overdue when simulated time advances. Ties at one instant are resolved by backtracking over both orders.",
         "trusted_extra": ['modelled rather than verified (simulator): lib.rs (sim_advanced, pick_next, do_scheduled_action, do_internal_timer, trigger_update, parse_trace), queue.rs, queue_event.rs, queue_peek.rs, network.rs, delay.rs WITHOUT integration delays; std BinaryHeap is modelled exactly (sift_up / sift_down_to_bottom); Instants are unbounded integers (ns), so overflow panics of Instant arithmetic are outside the model', 'the monitors of the simulator properties recover the actions by replaying the returned trace through fresh frameworks seeded as SimState::new does (Xoshiro256StarStar::seed_from_u64(seed), seed+1 for the server)'],
@@ -66,7 +66,7 @@ PROPS = {
         "sub": "sim",
         "search_n": {"quick": 30000, "thorough": 300000},
         "shards": {"quick": 1, "thorough": 12},
-        "n": {"quick": 1500, "thorough": 120000},
+        "n": {"quick": 1500, "thorough": 360000},
         "coq_sample": {"quick": 6, "thorough": 40},
         "rule": SIM_RULE % 'The monitor replays the trace through fresh frameworks and requires: each TimerBegin follows an UpdateTimer of that machine at that instant, each timer-setting UpdateTimer (replace, none running, later expiry) is followed by a TimerBegin at that instant, TimerEnd exactly once at the computed expiry and never for a cancelled or superseded timer.',
         "trusted_extra": ['modelled rather than verified (simulator): lib.rs (sim_advanced, pick_next, do_scheduled_action, do_internal_timer, trigger_update, parse_trace), queue.rs, queue_event.rs, queue_peek.rs, network.rs, delay.rs WITHOUT integration delays; std BinaryHeap is modelled exactly (sift_up / sift_down_to_bottom); Instants are unbounded integers (ns), so overflow panics of Instant arithmetic are outside the model', 'the monitors of the simulator properties recover the actions by replaying the returned trace through fresh frameworks seeded as SimState::new does (Xoshiro256StarStar::seed_from_u64(seed), seed+1 for the server)'],
@@ -76,7 +76,7 @@ PROPS = {
         "sub": "sim",
         "search_n": {"quick": 30000, "thorough": 300000},
         "shards": {"quick": 1, "thorough": 12},
-        "n": {"quick": 1200, "thorough": 96000},
+        "n": {"quick": 1200, "thorough": 240000},
         "coq_sample": {"quick": 6, "thorough": 40},
         "rule": SIM_RULE % 'The monitor runs every case twice (identical traces), compares the three filtered runs with the projections of the unfiltered run (prefix of max_trace_length elements when bounded), and requires no panic (pps limits include 2^32), non-decreasing time and the configured bounds.',
         "trusted_extra": ['modelled rather than verified (simulator): lib.rs (sim_advanced, pick_next, do_scheduled_action, do_internal_timer, trigger_update, parse_trace), queue.rs, queue_event.rs, queue_peek.rs, network.rs, delay.rs WITHOUT integration delays; std BinaryHeap is modelled exactly (sift_up / sift_down_to_bottom); Instants are unbounded integers (ns), so overflow panics of Instant arithmetic are outside the model', 'the monitors of the simulator properties recover the actions by replaying the returned trace through fresh frameworks seeded as SimState::new does (Xoshiro256StarStar::seed_from_u64(seed), seed+1 for the server)'],
